@@ -187,3 +187,18 @@ func (l *RandLayout) Quote(toks []ast.Tok, i int) byte {
 	}
 	return '"'
 }
+
+// Tight is the deterministic layout with nothing between two tokens wherever they
+// cannot fuse into another token, and a single space elsewhere.
+type Tight struct{}
+
+func (Tight) Gap(toks []ast.Tok, i int) string {
+	if CanGlue(toks[i-1], toks[i]) {
+		return ""
+	}
+	return " "
+}
+func (Tight) Sep([]ast.Tok, int) string { return "\n" }
+func (Tight) Quote(toks []ast.Tok, i int) byte {
+	return ast.DefaultQuote(toks[i].Text)
+}
